@@ -323,7 +323,15 @@ func (v *VM) exec() {
 			v.stack = v.stack[:len(v.stack)-int(i.A)+1]
 			if i.B == 1 {
 				tmp := vs[len(vs)-1]
-				vs = append(vs[:len(vs)-1], tmp.data()...)
+				if str, ok := tmp.value.(stringT); ok && tmp.t == TypeString {
+					// append(bytes, s...): the bytes of the string, not its runes
+					vs = vs[:len(vs)-1]
+					for k := 0; k < len(str); k++ {
+						vs = append(vs, Uint8(str[k]))
+					}
+				} else {
+					vs = append(vs[:len(vs)-1], tmp.data()...)
+				}
 			}
 			if s.value != nil {
 				v.stack[len(v.stack)-1] = s.Append(vs...)
